@@ -1,7 +1,141 @@
 import Driver.Util
-/-! Line-protocol driver for C14 (not built yet). -/
+import GqlgenVerif.Model.Complexity
+/-! Line-protocol driver for C14: the complexity walker, its Spec, safeAdd and the gate.
+
+```
+calc <schema> <customs> <vars> <doc>   ->  <walker result> <Spec result>
+sa <a> <b>                             ->  safeAdd a b   (regenerated definition)
+saspec <a> <b>                         ->  the right-hand side of safeAdd_spec
+maxint                                 ->  maxInt (regenerated definition)
+gate <complexity> <limit>              ->  <execCalls> <code|->
+```
+schema  = `Name:k:Impl|Impl;…` (k = o i u x); customs = `Type.field=c:<n>|l:<a>:<b>|a:<arg>:<b>;…`;
+vars = `name=<argv>;…` (argv = i<n> | n | o); doc = comma-separated prefix tokens
+`f,parent,name,ret,nargs,(arg,src,dflt)*,nsels,…` (src = - | L<argv> | V<var>; dflt = - | <argv>),
+`s,frag,nsels,…`, `i,cond,nsels,…`. `-` is the empty list.
+-/
+open GqlgenVerif GqlgenVerif.Complexity
 namespace Driver.C14
-def step (_line : String) : String := "bad-op"
+
+def items (s : String) (sep : String) : List String := if s = "-" ∨ s = "" then [] else s.splitOn sep
+
+def parseKind : String → Kind
+  | "o" => .object | "i" => .interface | "u" => .union | _ => .other
+
+def parseSchema (s : String) : Schema :=
+  let ents := (items s ";").filterMap fun e =>
+    match e.splitOn ":" with
+    | [n, k, impls] => some (n, parseKind k, items impls "|")
+    | _ => none
+  { kind := fun n => match ents.lookup n with | some (k, _) => k | none => .other
+    possible := fun n => match ents.lookup n with | some (_, p) => p | none => [] }
+
+def parseArgV (s : String) : Option ArgV :=
+  if s = "n" then some .null else if s = "o" then some .other
+  else if s.front = 'i' then ((s.drop 1).toString.toInt?).map .int else none
+
+def parseExpr (s : String) : Option Expr :=
+  match s.splitOn ":" with
+  | ["c", n] => n.toInt?.map .const
+  | ["l", a, b] => do pure (.lin (← a.toInt?) (← b.toInt?))
+  | ["a", n, b] => do pure (.arg n (← b.toInt?))
+  | _ => none
+
+def parseCustoms (s : String) : Option (List ((String × String) × Expr)) :=
+  (items s ";").mapM fun e =>
+    match e.splitOn "=" with
+    | [k, x] =>
+      match k.splitOn ".", parseExpr x with
+      | [t, f], some ex => some ((t, f), ex)
+      | _, _ => none
+    | _ => none
+
+def parseVars (s : String) : Option Vars :=
+  (items s ";").mapM fun e =>
+    match e.splitOn "=" with
+    | [k, v] => (parseArgV v).map fun x => (k, x)
+    | _ => none
+
+def parseSrc (s : String) : Option ArgSrc :=
+  if s = "-" then some .absent
+  else if s.front = 'L' then (parseArgV (s.drop 1).toString).map .lit
+  else if s.front = 'V' then some (.var (s.drop 1).toString)
+  else none
+
+def parseDflt (s : String) : Option (Option ArgV) :=
+  if s = "-" then some none else (parseArgV s).map some
+
+partial def parseArgs : Nat → List String → Option (List Arg × List String)
+  | 0, toks => some ([], toks)
+  | n + 1, name :: src :: d :: rest => do
+    let s ← parseSrc src
+    let df ← parseDflt d
+    let (as, r) ← parseArgs n rest
+    pure (⟨name, s, df⟩ :: as, r)
+  | _, _ => none
+
+mutual
+partial def parseSel : List String → Option (Sel × List String)
+  | "f" :: parent :: name :: ret :: na :: rest => do
+    let (as, r1) ← parseArgs (← na.toNat?) rest
+    match r1 with
+    | ns :: r2 =>
+      let (ss, r3) ← parseSels (← ns.toNat?) r2
+      pure (.field parent name ret as ss, r3)
+    | [] => none
+  | "s" :: frag :: ns :: rest => do
+    let (ss, r) ← parseSels (← ns.toNat?) rest
+    pure (.spread frag ss, r)
+  | "i" :: cond :: ns :: rest => do
+    let (ss, r) ← parseSels (← ns.toNat?) rest
+    pure (.inline cond ss, r)
+  | _ => none
+partial def parseSels : Nat → List String → Option (List Sel × List String)
+  | 0, toks => some ([], toks)
+  | n + 1, toks => do
+    let (s, r) ← parseSel toks
+    let (ss, r') ← parseSels n r
+    pure (s :: ss, r')
+end
+
+/-- the top level is `nsels,…` -/
+def parseDoc (s : String) : Option (List Sel) :=
+  match items s "," with
+  | ns :: rest =>
+    match ns.toNat? with
+    | some n =>
+      match parseSels n rest with
+      | some (ss, []) => some ss
+      | _ => none
+    | none => none
+  | [] => none
+
+def step (line : String) : String :=
+  match line.splitOn " " with
+  | ["calc", sch, cus, vs, doc] =>
+    match parseCustoms cus, parseVars vs, parseDoc doc with
+    | some tbl, some vars, some op =>
+      let S := parseSchema sch
+      let cf := tableCustom tbl
+      s!"{calculate S cf vars op} {Spec.complexity S cf vars op}"
+    | _, _, _ => "bad-op"
+  | ["sa", a, b] =>
+    match a.toInt?, b.toInt? with
+    | some a, some b => toString (Gen.SafeAdd.safeAdd a b)
+    | _, _ => "bad-op"
+  | ["saspec", a, b] =>
+    match a.toInt?, b.toInt? with
+    | some a, some b => toString (if a < 0 ∧ b < 0 then 1 else min Gen.SafeAdd.maxInt (max a 0 + max b 0))
+    | _, _ => "bad-op"
+  | ["maxint"] => toString Gen.SafeAdd.maxInt
+  | ["gate", c, l] =>
+    match c.toInt?, l.toInt? with
+    | some c, some l =>
+      let r := serve [(gate c l).2]
+      s!"{r.execCalls} {r.rejected.getD "-"}"
+    | _, _ => "bad-op"
+  | _ => "bad-op"
+
 end Driver.C14
 
 def main : IO Unit := do
